@@ -3,7 +3,10 @@
 An MList is a length term plus one z3 array per scalar component of its elements (elements are
 ints, bools, strings or tuples of these).  append / insert(0, .) / pop / del xs[0] / extend /
 xs[i] = v are functional updates of the arrays; at loop heads the list is havocked in place
-(fresh arrays, fresh length) so that aliases keep seeing the same object."""
+(fresh arrays, fresh length) so that aliases keep seeing the same object.
+
+Element k lives at array index `base + k`: insert(0, .) and del xs[0] / popleft move `base` instead of
+shifting the arrays, so that all updates are plain stores (no lambda terms in the obligations)."""
 try:
     import z3
 except ImportError:
@@ -12,7 +15,7 @@ except ImportError:
 import ast
 
 from .path import Unsupported
-from .values import SInt, SBool, SStr, SOpt, SChoice, SList, Sym, to_z3, wrap
+from .values import SInt, SBool, SStr, SOpt, SChoice, SList, Sym, Opaque, to_z3, wrap
 from . import models
 
 _SORT = {'int': lambda: z3.IntSort(), 'bool': lambda: z3.BoolSort(), 'str': lambda: z3.StringSort()}
@@ -28,9 +31,35 @@ def _kind(v):
     return None
 
 
+def record_shape(iface):
+    """Elements that are objects of an interface all of whose attributes are scalars are stored BY VALUE (one
+    array per attribute); an element read back is an object of the interface with these attribute values
+    (object identity is not preserved)."""
+    from . import api
+    attrs = {}
+    for k in reversed(iface.__mro__):
+        attrs.update(k.__dict__.get('attrs') or {})
+    fields = []
+    for name in sorted(attrs):
+        ty = attrs[name]
+        if isinstance(ty, api._Int):
+            fields.append((name, 'int', ty.lo, ty.hi))
+        elif isinstance(ty, api._Bool):
+            fields.append((name, 'bool', None, None))
+        elif isinstance(ty, api._Str):
+            fields.append((name, 'str', None, None))
+        else:
+            raise Unsupported('symbolic mutable list of %s objects: attribute %r is not a scalar' % (iface.__name__, name))
+    if not fields:
+        raise Unsupported('symbolic mutable list of %s objects: the interface has no scalar attributes' % iface.__name__)
+    return ('rec', iface, tuple(fields))
+
+
 def shape_of_value(v):
     if isinstance(v, tuple):
         return ('tuple', tuple(shape_of_value(x) for x in v))
+    if isinstance(v, Opaque):
+        return record_shape(v._pv_iface)
     k = _kind(v)
     if k is None:
         raise Unsupported('element of a symbolic mutable list must be int/bool/str or a tuple of these: %r' % (v,))
@@ -42,23 +71,29 @@ def _paths(shape, path=()):
         for i, s in enumerate(shape[1]):
             for p in _paths(s, path + (i,)):
                 yield p
+    elif shape[0] == 'rec':
+        for f in shape[2]:
+            yield path + (f[0],), f[1]
     else:
         yield path, shape[0]
 
 
-def _leaf(v, path):
+def _leaf(interp, v, path):
     for i in path:
-        v = v[i]
+        v = v[i] if isinstance(i, int) else interp.getattr(v, i)
     return v
 
 
 class MList(SList):
-    __slots__ = ('shape', 'arrs')
+    __slots__ = ('shape', 'arrs', 'base', 'version', 'is_deque')
 
     def __init__(self, interp, uid, shape, length=None, fresh=True):
         SList.__init__(self, length if length is not None else z3.IntVal(0), None, uid)
         self.shape = shape
         self.arrs = {}
+        self.base = z3.IntVal(0)
+        self.version = 0
+        self.is_deque = False
         self.immutable = False
         self.elem = self._elem
         if shape is not None:
@@ -66,7 +101,7 @@ class MList(SList):
 
     def _fresh_arrays(self, interp, base):
         for path, kind in _paths(self.shape):
-            name = interp.st.fresh_name('%s%s' % (base, ''.join('.%d' % i for i in path)))
+            name = interp.st.fresh_name('%s%s' % (base, ''.join('.%s' % (i,) for i in path)))
             self.arrs[path] = z3.Array(name, z3.IntSort(), _SORT[kind]())
 
     def _elem(self, interp, idx):
@@ -76,8 +111,22 @@ class MList(SList):
         def load(shape, path):
             if shape[0] == 'tuple':
                 return tuple(load(s, path + (i,)) for i, s in enumerate(shape[1]))
-            return wrap(z3.Select(self.arrs[path], idx))
+            if shape[0] == 'rec':
+                from .api import new_opaque
+                preset = {}
+                for (name, kind, lo, hi) in shape[2]:
+                    t = z3.Select(self.arrs[path + (name,)], at)
+                    # well-typedness of the stored objects (only objects of the interface are ever stored)
+                    if lo is not None:
+                        interp.st.assume(t >= lo)
+                    if hi is not None:
+                        interp.st.assume(t <= hi)
+                    preset[name] = wrap(t)
+                return new_opaque(interp, shape[1], '%s@v%d%s[]' % (self.uid, self.version, ''.join('.%s' % i for i in path)),
+                                  index=(at,), preset=preset)
+            return wrap(z3.Select(self.arrs[path], at))
 
+        at = z3.simplify(self.base + idx)
         return load(self.shape, ())
 
     def _ensure_shape(self, interp, v):
@@ -92,9 +141,11 @@ class MList(SList):
     def havoc(self, interp, tag):
         self.cache = {}
         self.aux = {}          # measures (pyvc.texts) describe the old contents
+        self.version += 1
         n = interp.st.fresh_int('%s.len@%s' % (self.uid, tag))
         interp.st.assume(n >= 0)
         self.length = n
+        self.base = z3.IntVal(0)
         if self.shape is not None:
             self.arrs = {}
             self._fresh_arrays(interp, '%s@%s' % (self.uid, tag))
@@ -105,8 +156,10 @@ class MList(SList):
         self._ensure_shape(interp, v)
         self.cache = {}
         n = self.length
+        self.version += 1
+        at = z3.simplify(self.base + self.length)
         for path, kind in _paths(self.shape):
-            self.arrs[path] = z3.Store(self.arrs[path], self.length, to_z3(_leaf(v, path)))
+            self.arrs[path] = z3.Store(self.arrs[path], at, to_z3(_leaf(interp, v, path)))
         self.length = z3.simplify(self.length + 1)
         from . import texts
         texts.on_append(interp, self, n, v)       # the prefix-join measure follows the append
@@ -117,11 +170,38 @@ class MList(SList):
             raise Unsupported('insert at a position other than 0 in a symbolic list')
         self._ensure_shape(interp, v)
         self.cache = {}
-        k = z3.Int('k!shift')
+        self.version += 1
+        self.base = z3.simplify(self.base - 1)
         for path, kind in _paths(self.shape):
-            a = self.arrs[path]
-            self.arrs[path] = z3.Lambda([k], z3.If(k == 0, to_z3(_leaf(v, path)), z3.Select(a, k - 1)))
+            self.arrs[path] = z3.Store(self.arrs[path], self.base, to_z3(_leaf(interp, v, path)))
         self.length = z3.simplify(self.length + 1)
+        self._rebase(interp)
+
+    def _rebase(self, interp):
+        """After the front of the list has moved (insert(0, .), del xs[0]): continue with fresh arrays in which
+        element k lives at index k again.  The link to the previous arrays is given by two axioms whose
+        triggers have no arithmetic (`new[j]` resp. `old[j]`), so that a witness index found for one of the
+        two lists is carried over to the other one by E-matching (statements with existential quantifiers over
+        the items of both lists)."""
+        b = z3.simplify(self.base)
+        if z3.is_int_value(b) and b.as_long() == 0:
+            return
+        st = interp.st
+        j = z3.Int('j!rebase')
+        new = {}
+        for path, kind in _paths(self.shape):
+            old = self.arrs[path]
+            suffix = ''.join('.%s' % (i,) for i in path)
+            if not z3.is_const(old):
+                named = z3.Array(st.fresh_name('%s@v%d%s' % (self.uid, self.version, suffix)), z3.IntSort(), _SORT[kind]())
+                st._add(named == old)
+                old = named
+            arr = z3.Array(st.fresh_name('%s@r%d%s' % (self.uid, self.version, suffix)), z3.IntSort(), _SORT[kind]())
+            st._add(z3.ForAll([j], z3.Select(arr, j) == z3.Select(old, j + b), patterns=[z3.Select(arr, j)]))
+            st._add(z3.ForAll([j], z3.Select(arr, j - b) == z3.Select(old, j), patterns=[z3.Select(old, j)]))
+            new[path] = arr
+        self.arrs = new
+        self.base = z3.IntVal(0)
 
     def pop(self, interp, pos=-1):
         st = interp.st
@@ -132,6 +212,7 @@ class MList(SList):
             v = self._elem(interp, z3.simplify(self.length - 1))
             self.length = z3.simplify(self.length - 1)
             self.cache = {}
+            self.version += 1
             return v
         if isinstance(pos, int) and pos == 0:
             v = self._elem(interp, z3.IntVal(0))
@@ -141,12 +222,11 @@ class MList(SList):
 
     def delete_first(self, interp):
         self.aux = {}
-        k = z3.Int('k!shift')
         self.cache = {}
-        for path, kind in _paths(self.shape):
-            a = self.arrs[path]
-            self.arrs[path] = z3.Lambda([k], z3.Select(a, k + 1))
+        self.version += 1
+        self.base = z3.simplify(self.base + 1)
         self.length = z3.simplify(self.length - 1)
+        self._rebase(interp)
 
     def extend(self, interp, other):
         self.aux = {}
@@ -160,17 +240,22 @@ class MList(SList):
             if self.shape is None:
                 if isinstance(other, MList) and other.shape is not None:
                     self.shape = other.shape
-                    self._fresh_arrays(interp, self.uid)
                 else:
-                    raise Unsupported('extend of an empty list of unknown shape')
+                    # shape of a generic element of the other sequence
+                    probe = interp.st.fresh_int('k!shape')
+                    with interp.st.scope(z3.And(probe >= 0, probe < other.length)):
+                        self.shape = shape_of_value(models.slist_elem(interp, other, probe))
+                self._fresh_arrays(interp, self.uid)
             k = z3.Int('k!ext')
             n = self.length
-            sample = models.slist_elem(interp, other, k - n)
+            end = z3.simplify(self.base + n)
+            sample = models.slist_elem(interp, other, k - end)
             for path, kind in _paths(self.shape):
                 a = self.arrs[path]
-                self.arrs[path] = z3.Lambda([k], z3.If(k < n, z3.Select(a, k), to_z3(_leaf(sample, path))))
+                self.arrs[path] = z3.Lambda([k], z3.If(k < end, z3.Select(a, k), to_z3(_leaf(interp, sample, path))))
             self.length = z3.simplify(n + other.length)
             self.cache = {}
+            self.version += 1
             return
         for x in interp.iterate(other):
             self.append(interp, x)
@@ -187,14 +272,18 @@ class MList(SList):
                 raise PyRaise(IndexError('list assignment index out of range'))
         self._ensure_shape(interp, v)
         self.cache = {}
+        self.version += 1
+        at = z3.simplify(self.base + t)
         for path, kind in _paths(self.shape):
-            self.arrs[path] = z3.Store(self.arrs[path], t, to_z3(_leaf(v, path)))
+            self.arrs[path] = z3.Store(self.arrs[path], at, to_z3(_leaf(interp, v, path)))
 
     def copy(self, interp):
         c = MList(interp, interp.st.fresh_name(self.uid + '.copy'), None, self.length)
         c.shape = self.shape
         c.arrs = dict(self.arrs)
         c.aux = dict(self.aux)
+        c.base = self.base
+        c.is_deque = self.is_deque
         return c
 
 
@@ -205,6 +294,10 @@ def method(interp, xs, name, args, kwargs):
         return xs.insert(interp, args[0], args[1])
     if name == 'pop':
         return xs.pop(interp, *args)
+    if name == 'popleft' and xs.is_deque:
+        return xs.pop(interp, 0)
+    if name == 'appendleft' and xs.is_deque:
+        return xs.insert(interp, 0, args[0])
     if name == 'extend':
         return xs.extend(interp, args[0])
     if name == 'copy':
@@ -213,6 +306,7 @@ def method(interp, xs, name, args, kwargs):
         xs.length = z3.IntVal(0)
         xs.cache = {}
         xs.aux = {}
+        xs.version += 1
         return None
     return None
 
